@@ -107,7 +107,7 @@ def run_heap(ctx, hexe, cases, label):
 
 # ----------------------------------------------------------------------------- timers
 def gen_timer_case(rng, ntimers, nsteps):
-    lines = [f"init {ntimers}"]
+    lines = [f"lag {rng.choice([0, 50, 150, 500, 999])}", f"init {ntimers}"]
     now = rng.choice([0, 0, 5, 1000, 2 ** 40])
     lines.append(f"time {now}")
     k_script = 0
@@ -149,6 +149,8 @@ def gen_timer_case(rng, ntimers, nsteps):
                     ops = [":".join(map(str, op(True))) for _ in range(rng.range(1, 3))]
                     lines.append(f"script {kk} " + " ".join(ops))
             now = min(U64 - 1, now + rng.choice([0, 1, 1, 2, 3, 5, 50]))
+            if rng.chance(1, 4):
+                lines.append(f"lag {rng.choice([0, 150, 999])}")
             lines.append(f"time {now}")
             lines.append("run")
             k_script += 40   # callbacks beyond the scripted ones do nothing
@@ -186,8 +188,13 @@ def timer_monitor(lines_in, out):
             T[int(w[1])]["active"] = False; T[int(w[1])]["closing"] = True
     for cmd in lines_in:
         w = cmd.split()
+        if w[0] == "lag":
+            continue
         if w[0] == "init":
             T = {i: dict(active=False, due=0, rep=0, sid=0, closing=False, hascb=False) for i in range(int(w[1]))}
+            o = next(it)
+            if o != "loopinit time=0":
+                return f"uv_now right after uv_loop_init is not the loop clock's reading (later readings would go backwards): {o}"
             next(it)
         elif w[0] == "time":
             if int(w[1]) < now:
